@@ -54,6 +54,7 @@ func init() {
 			return []Instance{
 				{Scenario: "c08_rollback", Params: mustJSON(RollbackParams{}), Bound: 0, Shards: 8},
 				{Scenario: "c08_rollback", Params: mustJSON(RollbackParams{Finite: true}), Bound: 0, Shards: 8, Note: "finite mode: the re-request after the rollback has the same (bounded) end"},
+				{Scenario: "c12_duringopen", Params: mustJSON(struct{}{}), Bound: 0, Shards: 4, Note: "a vBucket whose stream ends while the session is still starting (first start-up and the re-open after a rebalance) is re-requested, never silently left out"},
 				{Scenario: "c08_endincatchup", Params: mustJSON(struct{}{}), Bound: 0, Note: "the re-requested stream ends transiently before it is back at the checkpointed position: re-opened like any other, nothing at or below F shown"},
 				{Scenario: "c08_rollback", Params: mustJSON(RollbackParams{Fail: "failoverlog"}), Bound: 0, Shards: 2},
 				{Scenario: "c08_rollback", Params: mustJSON(RollbackParams{Fail: "reopen"}), Bound: 0, Shards: 2},
